@@ -140,7 +140,10 @@ SPECS = {
     "C01": _hnd("c01", extra=HNDB_FILES + ["Proofs/HandlerB_Who.v", "Proofs/HandlerB_Examples.v"]),
     "C02": _hnd("c02", extra=HNDB_FILES + ["Proofs/HandlerB_Examples.v"]),
     "C03": _hnd("c03", extra=HNDB_FILES + ["Proofs/HandlerB_Examples.v"]),
-    "C04": _hnd("c04", extra=["Proofs/HandlerInv.v", "Proofs/HandlerA_Ledger.v", "Proofs/HandlerA_Nonce.v", "Proofs/HandlerA_Progress.v"]),
+    "C04": _hnd("c04", extra=["Proofs/HandlerInv.v", "Proofs/HandlerA_Ledger.v", "Proofs/HandlerA_Nonce.v", "Proofs/HandlerA_Progress.v",
+                              "Proofs/HandlerB_Base.v", "Proofs/HandlerB_Frame.v", "Proofs/HandlerB_Session.v", "Proofs/HandlerB_Trace.v",
+                              "Proofs/HandlerB_Trace2.v", "Proofs/HandlerB_Trace3.v", "Proofs/HandlerA_Wire2.v", "Proofs/HandlerA_Wire3.v",
+                              "Proofs/HandlerA_Wire4.v", "Proofs/HandlerA_Wire.v"]),
     "C13": _hnd("c13", extra=["Proofs/HandlerInv.v"]),
     "C19": _hnd("c19", extra=HNDB_FILES + ["Proofs/HandlerB_Examples.v", "Proofs/HandlerB_Trace.v", "Proofs/HandlerB_Trace2.v", "Proofs/HandlerB_Trace3.v", "Proofs/HandlerB_TraceEx.v"]),
     "C17": {
